@@ -5,6 +5,7 @@ import (
 	"os"
 	"path/filepath"
 	"runtime"
+	"sync"
 	"time"
 
 	"github.com/pgavlin/dawn/verifharness/core"
@@ -76,6 +77,24 @@ func historyCase(c *core.Ctx, which string, i, nsteps int) {
 	s := pj.NewSession(dir)
 	defer os.RemoveAll(dir)
 	p := g.Project()
+	if which == "C02" && i%2 == 1 {
+		// module top-level code yields between load statements: package and module load order is
+		// shuffled from load to load, fingerprints must not depend on it
+		p.Pause = true
+		pr := c.Rand(id + "/pause")
+		var pmu sync.Mutex
+		pj.PauseHook = func(string) {
+			pmu.Lock()
+			k := pr.IntN(6)
+			pmu.Unlock()
+			for j := 0; j < k; j++ {
+				runtime.Gosched()
+			}
+		}
+		c.Count("projects_with_shuffled_load_order", 1)
+	} else {
+		pj.PauseHook = nil
+	}
 	e := pj.NewEngine(s, p, g)
 	e.ChildBuild = childBuilder(c, 0)
 	r := g.R
